@@ -1,0 +1,18 @@
+//go:build verif
+
+package store
+
+import "github.com/ipld/go-storethehash/store/freelist"
+
+// VerifSetFlushRate sets the measured flush rate so that the rate-limited
+// path of flushTick can be entered deterministically.
+func (s *Store) VerifSetFlushRate(rate float64) {
+	s.rateLk.Lock()
+	s.flushRate = rate
+	s.rateLk.Unlock()
+}
+
+// VerifFreeList returns the store's freelist.
+func (s *Store) VerifFreeList() *freelist.FreeList {
+	return s.freelist
+}
